@@ -366,6 +366,20 @@ def _c18_worker(case):
                 free_b = [st(s_) for i in sdb.expanded_ids() for s_ in sdb.node_attractor_seeds(i, compute=True)]
                 free_b = [x for x in free_b if all(x[nm.index(v)] == str(b) for v, b in val.items())]
                 fix_b = [st(s_) for i in sfb.expanded_ids() for s_ in sfb.node_attractor_seeds(i, compute=True)]
+                if case.get("block_shape"):
+                    # corpus cases only: under the default block expansion too, the diagram of the fixed-input network is the part of the free-input
+                    # diagram below the valuation node -- same node spaces, expanded flags and edges (seeded change w12_C18)
+                    startb = sdb.find_node(perc)
+                    if startb is None:
+                        msgs.append(("input-node-missing-build", f"build(): no node for the input valuation {val}"))
+                    else:
+                        belowb = {startb} | set(nx.descendants(sdb.dag, startb))
+                        Ab = {(f(sdb.node_data(i)["space"]), bool(sdb.node_data(i)["expanded"])) for i in belowb}
+                        Bb = {(f(sfb.node_data(i)["space"]), bool(sfb.node_data(i)["expanded"])) for i in sfb.node_ids()}
+                        EAb = {(f(sdb.node_data(a_)["space"]), f(sdb.node_data(b_)["space"])) for a_, b_ in sdb.dag.edges() if a_ in belowb}
+                        EBb = {(f(sfb.node_data(a_)["space"]), f(sfb.node_data(b_)["space"])) for a_, b_ in sfb.dag.edges()}
+                        if Ab != Bb or EAb != EBb:
+                            msgs.append(("input-restriction-build", f"build(): diagram of the network with inputs fixed to {val} ({len(Bb)} nodes) is not the part of the free-input diagram below the node of that valuation ({len(Ab)} nodes)"))
                 ja, jb = attractor_ids(free_b, attrs), attractor_ids(fix_b, attrs)
                 if sorted(x for x in ja if x is not None) != sorted(x for x in jb if x is not None) or None in ja or None in jb or len(set(ja)) != len(ja):
                     msgs.append(("input-attractors-build", f"build(): attractors of the free-input network under {val}: {ja}; of the network with the inputs fixed: {jb}"))
